@@ -422,6 +422,20 @@ class Gen:
       a.children = [ws(), s1, ws(), s2, ws()]
       self.classes.add("p-outlives-spans-white-space-only")
     elif rng.random() < 0.06:
+      # specified display none, shown by an animation step while timed descendants come and go: their begins and ends are
+      # changes of the presentation (significant times) although the paragraph is "not displayed" by specification
+      a.begin, a.end = None, None
+      a.styles["Display"] = E("DisplayType", "none")
+      a.anims = [x for x in a.anims if x[0] != "Display"]
+      a.anims.append(("Display", Fr(1), Fr(9), E("DisplayType", "auto")))
+      s1, s2 = self.span(timed=False), self.span(timed=False)
+      s1.begin, s1.end, s2.begin, s2.end = Fr(2), Fr(3), Fr(4), Fr(6)
+      for sp in (s1, s2):
+        sp.styles.pop("Display", None)
+        sp.anims = [x for x in sp.anims if x[0] != "Display"]
+      a.children = [s1, s2]
+      self.classes.add("display-none-animated-to-auto-with-timed-children")
+    elif rng.random() < 0.06:
       # an empty text node under xml:space=preserve at an edge of the paragraph, next to default-space text that begins / ends
       # with white space: the empty node is no character, the neighbour is still the first / last text of the paragraph
       a.space = None
